@@ -23,12 +23,12 @@ CHECKS = {
              "C04_one_bit_roundtrip (entry built by the loader decodes to the symbols written for every widest-kind x local-kind combination, both meta layouts), "
              "C04_align_no_underflow, C04_leb_roundtrip, C04_char_faithful / C04_kind_independent_chars over tables regenerated from the code; STREAM level: C04_stream_fixed / _onebit / _reals / _strings "
              "(the payload of one signal in one block — one chunk per change, any number of changes, any deltas below 2^30 — is decoded by load_fixed_len_signal / load_reals / load_signal_strings into exactly those changes at the running time index) and "
-             "C04_encoder_chunk (add_n_bit_change appends exactly such a chunk). "
+             "C04_encoder_chunk (add_n_bit_change appends exactly such a chunk); BLOCK level: C04_block_slice (the offset table finish_block writes lets get_offset_and_length cut every signal's payload back out of the block data, for every number of signals with and without data). "
              "The executable Lean model of Encoder/SignalEncoder/Reader (Model/Store.lean) and the abstract Spec.run are compared with the real store "
              "on generated histories covering every regime of the quantifier (widths, state orders, payload sizes around 32 bytes, 65535-multiples, splits).",
         design_ref="DESIGN.md section 5 / C04",
-        note="Proved: per-value packing, per-entry layout and the per-block signal stream (unbounded). Not proved, validated by the differential run only: the block level "
-             "(offset table, time-index offsets across blocks, compressed flag, append) and the composition into one refinement theorem Store = Spec.run. lz4_flex is not modelled (compress = id in the model; "
+        note="Proved: per-value packing, per-entry layout and the per-block signal stream (unbounded). Not proved, validated by the differential run only: time-index offsets across blocks, the compressed flag / meta byte, append, and the composition "
+             "of the proved layers into one refinement theorem Store = Spec.run. lz4_flex is not modelled (compress = id in the model; "
              "the compression decision is an arbitrary predicate). Trusted: Lean kernel, table translator vf/tables.py, harness, generators.",
     ),
     "C02": dict(
@@ -36,10 +36,11 @@ CHECKS = {
         text="Lean theorems C02_timeTable_exact / C02_timeTable_strict: for every history of time/value operations accepted by the model of wavemem::Encoder and every "
              "block size (BlockTimeIdx::MAX is a parameter), the table returned by finish is strictPrefixMax of the timestamps (C02_mem_iff characterises it), hence strictly "
              "increasing with each step exactly once. The model is compared with the real Encoder on histories with repeated/backwards timestamps, 65534..65537, 131069..131072 "
-             "and 200000 steps and encoder splits; Spec.run supplies the expected table and indices.",
+             "and 200000 steps and encoder splits; Spec.run supplies the expected table and indices. C02_indices_valid: in the waveform a history denotes (Spec.run, the oracle every load is compared with), "
+             "every change of every signal carries an index below the length of the time table (invariant by induction over all histories).",
         design_ref="DESIGN.md section 5 / C02",
-        note="Proved for the wavemem store (VCD and GHW back end). Index validity/monotonicity per signal and the FST time chain are covered by the differential run against "
-             "Spec.run only (no theorem yet). The implicit leading 0 of VCD bodies is part of the C01 model. Trusted: Lean kernel, harness, generators.",
+        note="Proved for the wavemem store (VCD and GHW back end). Index validity is a theorem about the oracle Spec.run (C02_indices_valid); that the store returns exactly Spec.run's indices, and the FST time chain, are covered by the differential run "
+             "(per-block stream decoding is proved in C04_stream_*). The implicit leading 0 of VCD bodies is part of the C01 model. Trusted: Lean kernel, harness, generators.",
     ),
     "C06": dict(
         technique="Lean 4 proof (canon / minimal-kind / width lemmas by induction; entry injectivity from the round trip) + differential redundant-write histories",
